@@ -243,6 +243,12 @@ func RunCheck(property string, level string, assumptions []string, parts []Part)
 		rep.Name = p.Name
 		reports = append(reports, rep)
 		for _, v := range rep.Violations {
+			if MatchKnown(known, v.Sig) != nil {
+				if _, ok := knownSeen[v.Sig]; !ok {
+					knownSeen[v.Sig] = v
+				}
+				continue
+			}
 			viols = append(viols, struct {
 				part string
 				v    Violation
